@@ -87,6 +87,44 @@ def runtime_obligations(tu, out):
             out.append({"obligation": f"can_signal_parser.c:{tname}", "verdict": "unknown", "reason": "outside-subset: " + str(e)})
 
 
+def runtime_float_obligations(tu, out):
+    """float / double carriers: symbolic start (length = width of the type), scale 1.0, offset 0.0, little endian; NaN excluded
+    (payloads are not tracked by the FP theory)"""
+    for tname, w in (("float", 32), ("double", 64)):
+        srt = z3.Float32() if w == 32 else z3.Float64()
+        v = z3.FP("fv", srt)
+        start = z3.BitVec("start", 32)
+        s64 = z3.ZeroExt(32, start)
+        length = z3.BitVecVal(w, 32)
+        pre = [z3.ULE(s64 + w, 64), z3.Not(z3.fpIsNaN(v))]
+        bits = z3.fpToIEEEBV(v)
+        b64 = z3.ZeroExt(64 - w, bits) if w < 64 else bits
+        try:
+            def enc_args(ex, v=v, w=w):
+                return [FV(v, w), IV(start, 32, False), IV(length, 32, False), FV(1.0, 32), FV(0.0, 32), IV(z3.BitVecVal(0, 1), 1, False)]
+            paths = explore(tu, f"can_encode_signal_from_{tname}", enc_args)
+            enc = merged_ret(paths).e
+            prove(f"can_signal_parser.c:can_encode_signal_from_{tname}#post[word == IEEE image << start]", pre, enc == (b64 << s64), out)
+            data = z3.BitVec("data", 64)
+
+            def dec_args(ex, data=data):
+                fr = ex.zero_of("CanFrame")
+                fr["data"] = IV(data, 64, False)
+                ex.frames.append({"__msg": fr})
+                return [Ptr(("var", 0, "__msg")), IV(start, 32, False), IV(length, 32, False), FV(1.0, 32), FV(0.0, 32),
+                        IV(z3.BitVecVal(0, 1), 1, False)]
+            dpaths = explore(tu, f"can_decode_signal_as_{tname}", dec_args)
+            if len(dpaths) != 1:
+                raise CUnsupported("decode has symbolic branches")
+            dec = dpaths[0]["ret"]
+            field = z3.Extract(w - 1, 0, z3.LShR(data, s64))
+            spec = z3.fpBVToFP(field, srt)
+            prove(f"can_signal_parser.c:can_decode_signal_as_{tname}#post[value == IEEE value of the field]",
+                  [z3.ULE(s64 + w, 64), z3.Not(z3.fpIsNaN(spec))], z3.fpEQ(dec.term(), spec), out)
+        except CUnsupported as e:
+            out.append({"obligation": f"can_signal_parser.c:{tname}", "verdict": "unknown", "reason": "outside-subset: " + str(e)})
+
+
 def gen_family(seed, tier):
     """schemas of the C generator's advertised subset (flat structs of 1-64 bit integers and enums bound to CAN)"""
     fam = [
@@ -99,6 +137,7 @@ def gen_family(seed, tier):
         ("order", 'struct O { z @2: u16, x @0: u8, y @1: i8, }\nimpl can for O { id: 7, device: "ecu", period: 2147483647, }\n'),
         ("narrow", 'struct N { a @0: u3, b @1: i12, c @2: u1, d @3: i33, }\nimpl can for N { id: 9, device: "ecu", period: 3, }\n'),
         ("floats2", 'struct H { p @0: u8, x @1: f32, }\nimpl can for H { id: 22, device: "ecu", }\n'),
+        ("floats3", 'struct K { p @0: u3, x @1: f32, q @2: i5, }\nimpl can for K { id: 23, device: "ecu", }\n'),
         ("floats", 'struct F { x @0: f32, y @1: u8, }\nimpl can for F { id: 20, device: "ecu", period: 10, }\n'
                    'struct G { d @0: f64, }\nimpl can for G { id: 21, device: "ecu", }\n'),
         ("enum", 'enum E { A = 0, B = 1, C = 2, }\nstruct S { p @0: u8, e @1: E, q @2: u8, }\nimpl can for S { id: 5, device: "ecu", period: 5, }\n'),
@@ -240,6 +279,19 @@ def generated_obligations(name, src, out, samples, scratch):
                 samples.append({"schema": src.strip()[:200], "message": pas, "layout": m["pieces"], "frame_id": m["id"], "bits": m["bits"]})
         except CUnsupported as e:
             out.append({"obligation": f"gen[{name}]:{sn}", "verdict": "unknown", "reason": "outside-subset: " + str(e)})
+        mine = [o for o in out if o["obligation"].startswith(f"gen[{name}]:") and (o["obligation"].endswith(":" + sn) or f"_msg_{sn}#" in o["obligation"])
+                and o["verdict"] != "proved"]
+        if mine:
+            try:
+                found = c_search_generated(d, info, m, src)
+            except Exception as e:      # the stand-in must never decide anything by crashing
+                found = {"error": f"{type(e).__name__}: {e}"}
+            if found and found.get("reproduced"):
+                for o in mine:
+                    o["concrete"] = found
+                    if o["verdict"] == "unknown":
+                        o["verdict"] = "refuted"
+                        o["reason"] = (o.get("reason") or "") + " | concrete failing input found on the compiled program"
     return tu, info
 
 
@@ -333,6 +385,85 @@ def scheduler_obligations(name, src, out, samples, scratch):
             out.append({"obligation": f"gen[{name}]:{fname}", "verdict": "unknown", "reason": "outside-subset: " + str(e)})
 
 
+def c_search_generated(d, info, m, src):
+    """Bounded stand-in used ONLY to look for a concrete failing input when the symbolic proof of a generated message is
+    refuted or undecided: compile the generated program with gcc and compare encode/decode on boundary values with the
+    layout packing.  -> None (nothing found) or a dict describing the failing input."""
+    import struct as _st
+    pas, sn = m["name"], m["snake"]
+    dev = m["device"]
+    pieces = m["pieces"]
+    cands = []
+    for pc_ in pieces:
+        L = pc_["len"]
+        if pc_["type"] == "f32":
+            cands.append([0.0, 1.5, -2.25, 3.0e38, 1.0e-40])
+        elif pc_["type"] == "f64":
+            cands.append([0.0, 1.5, -2.25, 1.0e308, 5e-324])
+        elif pc_["signed"]:
+            cands.append([0, -1, 2 ** (L - 1) - 1, -(2 ** (L - 1)), 1])
+        else:
+            cands.append([0, 2 ** L - 1, 1, 2 ** (L - 1), (0xA5A5A5A5A5A5A5A5 & (2 ** L - 1))])
+    vectors = [[c[k % len(c)] for c in cands] for k in range(5)]
+    for i in range(len(pieces)):                 # one field at its extreme, the others zero: isolates overlap/shift bugs
+        for x in cands[i][1:4]:
+            vectors.append([x if j == i else 0 for j in range(len(pieces))])
+
+    def lit(pc_, x):
+        if pc_["type"] == "f32":
+            return f"{x!r}f" if "e" in repr(x) or "." in repr(x) else f"{x}.0f"
+        if pc_["type"] == "f64":
+            return repr(x)
+        return f"((int64_t){x}LL)" if pc_["signed"] else f"{x}ULL"
+
+    body = []
+    for vec in vectors:
+        sets = " ".join(f"m.{pc_['name']} = {lit(pc_, x)};" for pc_, x in zip(pieces, vec))
+        prints = []
+        for pc_ in pieces:
+            if pc_["type"] == "f32":
+                prints.append(f"{{ uint32_t b; float f = r.{pc_['name']}; memcpy(&b, &f, 4); printf(\" %llu\", (unsigned long long)b); }}")
+            elif pc_["type"] == "f64":
+                prints.append(f"{{ uint64_t b; double f = r.{pc_['name']}; memcpy(&b, &f, 8); printf(\" %llu\", (unsigned long long)b); }}")
+            else:
+                prints.append(f"printf(\" %lld\", (long long)r.{pc_['name']});")
+        body.append(f"{{ CanMsg{pas} m; memset(&m, 0, sizeof m); {sets} CanFrame f = can_encode_msg_{sn}(&m); uint64_t w; memcpy(&w, f.data, 8); "
+                    f"printf(\"%u %u %llu\", (unsigned)f.id, (unsigned)f.dlc, (unsigned long long)w); CanMsg{pas} r = can_decode_msg_{sn}(&f); "
+                    + " ".join(prints) + " printf(\"\\n\"); }")
+    hsrc = ('#include <stdio.h>\n#include <string.h>\n#include <stdint.h>\n#include <stdbool.h>\n#include "%s_can.h"\nint main(void){\n%s\nreturn 0; }\n'
+            % (dev, "\n".join(body)))
+    hp = os.path.join(d, f"harness_{sn}.c")
+    open(hp, "w").write(hsrc)
+    exe = os.path.join(d, f"harness_{sn}")
+    cfiles = [f for f in info["files"] if f.endswith(".c")]
+    p = subprocess.run(["gcc", "-O0", "-w", "-I", d, hp] + cfiles + ["-o", exe], capture_output=True, text=True)
+    if p.returncode != 0:
+        return {"error": "harness does not compile: " + p.stderr[:300]}
+    r = subprocess.run([exe], capture_output=True, text=True, timeout=30)
+    lines = r.stdout.strip().split("\n")
+    for vec, ln in zip(vectors, lines):
+        got = [int(x) for x in ln.split()]
+        word = 0
+        expdec = []
+        for pc_, x in zip(pieces, vec):
+            L = pc_["len"]
+            if pc_["type"] == "f32":
+                bits = _st.unpack("<I", _st.pack("<f", x))[0]
+                expdec.append(bits)
+            elif pc_["type"] == "f64":
+                bits = _st.unpack("<Q", _st.pack("<d", x))[0]
+                expdec.append(bits)
+            else:
+                bits = x & (2 ** L - 1)
+                expdec.append(x)
+            word |= (bits & (2 ** L - 1)) << pc_["start"]
+        exp = [m["id"] & 0x7FF, (m["bits"] + 7) // 8, word & (2 ** 64 - 1)] + expdec
+        if got != exp:
+            return {"schema": src, "message": pas, "values": dict(zip([pc_["name"] for pc_ in pieces], vec)),
+                    "expected[id,dlc,data,decoded...]": exp, "observed": got, "reproduced": True}
+    return None
+
+
 def c_replay_runtime(ob, model):
     """Re-run a refuted run-time obligation on the real can_signal_parser.c: compile a harness with gcc, compare with the spec."""
     import re
@@ -388,6 +519,7 @@ def main(pid, tier, seed):
             try:
                 tu = TU([os.path.join(TEMPL, "can_signal_parser.c")], [TEMPL])
                 runtime_obligations(tu, out)
+                runtime_float_obligations(tu, out)
             except CUnsupported as e:
                 out.append({"obligation": "can_signal_parser.c", "verdict": "unknown", "reason": str(e)})
             for name, src in gen_family(seed, tier):
@@ -409,6 +541,7 @@ def finish(pid, tier, seed, out, samples, t0):
                 known[ob] = f
     rc = 0
     printed = set()
+    printed_paths = set()
     n = len(out)
     ok = sum(1 for o in out if o["verdict"] == "proved")
     viol = 0
@@ -424,12 +557,14 @@ def finish(pid, tier, seed, out, samples, t0):
             continue
         if o["verdict"] == "refuted":
             path = os.path.join("replays", pid, hashlib.sha1(o["obligation"].encode()).hexdigest()[:12] + ".json")
-            rp = c_replay_runtime(o["obligation"], o.get("model")) if o["obligation"].startswith("can_signal_parser.c:") else None
+            rp = c_replay_runtime(o["obligation"], o.get("model")) if o["obligation"].startswith("can_signal_parser.c:") else o.get("concrete")
             ok_rp = bool(rp and rp.get("reproduced"))
             json.dump({"property": pid, "obligation": o["obligation"], "verdict": "refuted", "solver_model": o.get("model"),
                        "replay_on_real_code": rp, "reproduced": ok_rp,
-                       "detail": {k: v for k, v in o.items() if k not in ("model",)}}, open(os.path.join(VERIF, path), "w"), indent=1, default=str)
-            print(f"VIOLATION property={pid} replay={path}" + ("" if ok_rp else " no-failing-input-found"))
+                       "detail": {k: v for k, v in o.items() if k not in ("model", "concrete")}}, open(os.path.join(VERIF, path), "w"), indent=1, default=str)
+            if path not in printed_paths:
+                print(f"VIOLATION property={pid} replay={path}" + ("" if ok_rp else " no-failing-input-found"))
+                printed_paths.add(path)
             viol += 1
             rc = 1
         else:
